@@ -364,6 +364,22 @@ static void t_join(Src &s, Case &c)
     auto back = igris::split(igris::buffer(j), delim);
     VP_CHECK(back == toks, "split_join_roundtrip", "join -> \"%s\"; igris::split gives %s want %s",
              esc(j).c_str(), show(back).c_str(), show(toks).c_str());
+    if (k >= 1)
+    {
+        // the iterator-range form with a delimiter string, a prefix and a postfix (what goes round the list is a function of
+        // the tokens, no extra choice): prefix + t0 + delim + t1 + ... + postfix
+        static const char *const pre[] = {"", "[", "{ ", "("};
+        static const char *const post[] = {"", "]", " }", ");"};
+        const char *px = pre[(k + toks[0].size()) % 4], *sx = post[(j.size() + k) % 4];
+        Str dstr = delim == ',' ? Str(", ") : Str(1, delim);
+        Str want = px;
+        for (size_t i = 0; i < k; i++)
+            want += (i ? dstr : Str()) + toks[i];
+        want += sx;
+        Str got = igris::join(toks.begin(), toks.end(), dstr.c_str(), px, sx);
+        VP_CHECK(got == want, "join_range_form", "join(range of %zu, \"%s\", \"%s\", \"%s\") gives \"%s\", want \"%s\"", k, esc(dstr).c_str(), px, sx, esc(got).c_str(),
+                 esc(want).c_str());
+    }
 }
 VP_TARGET("join", t_join,
           "0..6 non-empty tokens (1..5 chars over the full alphabet minus the delimiter), "
@@ -609,6 +625,38 @@ static void t_memmem(Src &s, Case &c)
     }
     check_memmem(c, hay, nd);
 }
+// haystack and needle over all byte values (text in any encoding, binary markers such as FF FE)
+static void t_memmem_bytes(Src &s, Case &c)
+{
+    size_t hn = gen_len(s, 48);
+    Str hay(hn, 'a');
+    static const unsigned char few[] = {0x80, 0xFF, 0xFE, 0xC3, 0xA0, 'a', 0x00, 0x7F};
+    bool narrow = s.coin(); // few distinct values: partial matches and repeats
+    for (size_t i = 0; i < hn; i++)
+        hay[i] = narrow ? (char)few[s.below(sizeof few)] : (char)s.u8();
+    Str nd;
+    size_t nn = (size_t)s.range(0, 6);
+    if (hn && nn && s.below(4) != 0)
+    {
+        size_t at = (size_t)s.below(hn);
+        nd = hay.substr(at, nn); // cut from the haystack
+        if (!nd.empty() && s.below(5) == 0)
+            nd.back() = (char)(nd.back() ^ 0x81); // near miss
+    }
+    else
+        for (size_t i = 0; i < nn; i++)
+            nd += narrow ? (char)few[s.below(sizeof few)] : (char)s.u8();
+    c.log("memmem hay=\"%s\" needle=\"%s\"", esc(hay).c_str(), esc(nd).c_str());
+    c.nontrivial = nd.size() >= 2 && hay.size() >= nd.size() && (nd[0] & 0x80);
+    if (!nd.empty() && (nd[0] & 0x80))
+        c.label("needle_starts_with_high_byte");
+    if (nd.size() >= 1 && hay.size() >= nd.size())
+        c.label(std::search(hay.begin(), hay.end(), nd.begin(), nd.end()) == hay.end() ? "absent" : "present");
+    check_memmem(c, hay, nd);
+}
+VP_TARGET("memmem_bytes", t_memmem_bytes,
+          "igris_memmem with haystack 0..48 and needle 0..6 over all 256 byte values (half of the cases over {80 FF FE C3 A0 'a' 00 7F}), needle usually cut from the haystack "
+          "or a near miss; same oracle as memmem; non-trivial = a needle of >= 2 bytes starting with a byte >= 0x80");
 VP_TARGET("memmem", t_memmem,
           "haystack 0..48 over {a b (NUL c)}, needle 0..6 (usually cut from the haystack, "
           "sometimes a near miss or the tail), both exactly-sized non-terminated; non-trivial = "
